@@ -118,6 +118,11 @@ func (scanDriver) ScanStmts(in string) ([]*migrate.Stmt, error) {
 // statement (as the driver's scanner yields them) is executed whole, in order, successfully exactly once.
 func compound(failAt int) (problems []string) {
 	bad := func(format string, a ...any) { problems = append(problems, fmt.Sprintf(format, a...)) }
+	defer func() {
+		if p := recover(); p != nil {
+			bad("panic: %v", p)
+		}
+	}()
 	body := "S_1_1;\nCREATE TRIGGER tr AFTER INSERT ON t BEGIN S_a; S_b; END;\nS_1_3;\n"
 	dir, err := mighelp.Dir(map[string]string{"1_f.sql": body, "2_f.sql": "S_2_1;\n"})
 	if err != nil {
